@@ -19,6 +19,10 @@ Lemma spock_prove_skeleton : skel_spock_SPOCKProve = [Call ".Sign("].
 Proof. reflexivity. Qed.
 Lemma spock_vad_skeleton : skel_spock_SPOCKVerifyAgainstData = [Call ".Verify("].
 Proof. reflexivity. Qed.
+Lemma return_counts_spock :
+  (nret_spock_SPOCKVerify, nret_spock_SPOCKProve, nret_spock_SPOCKVerifyAgainstData, nret_bls_core_bls_spock_verify)
+  = (6, 2, 2, 6)%nat.
+Proof. reflexivity. Qed.
 Lemma g1len_eq : Z.to_nat crypto_g1BytesLen = Z.to_nat C_G1_SER_BYTES.
 Proof. reflexivity. Qed.
 
